@@ -122,6 +122,7 @@ CANARIES = {
         ("first-selector-only", "stix2/markings/utils.py", "loop-once", ["validate"], "C08.reject"),
     ],
     "C09": [
+        ('match-does-not-consume-its-element', 'stix2/equivalence/pattern/transform/observation.py', 'text', ['        ee_iter = iter(exprs_containee)\n        er_iter = iter(exprs_container)\n\n        result = True\n        while True:\n            ee = next(ee_iter, None)\n            if not ee:\n                break\n\n            while True:\n                er = next(er_iter, None)\n                if er:\n                    if observation_expression_cmp(ee, er) == 0:\n                        break\n                else:\n                    break\n\n            if not er:\n', '        er_iter = iter(exprs_container)\n        er = next(er_iter, None)\n\n        result = True\n        for ee in exprs_containee:\n            while er is not None \\\n                    and observation_expression_cmp(ee, er) != 0:\n                er = next(er_iter, None)\n\n            if er is None:\n'], 'C09.distinct-bindings'),
         ('repeats-distributed-over-or', 'stix2/equivalence/pattern/transform/observation.py', 'text', ['    def transform_followedby(self, ast):\n        return self.__transform(ast)\n', '    def transform_followedby(self, ast):\n        return self.__transform(ast)\n\n    def transform_qualified(self, ast):\n        inner = ast.observation_expression\n        if isinstance(inner, OrObservationExpression):\n            return OrObservationExpression([QualifiedObservationExpression(c, ast.qualifier) for c in inner.operands]), True\n        return ast, False\n'], 'C09.pipeline'),
         ("order-entry-lost", "stix2/equivalence/pattern/compare/comparison.py", "drop-list-element", ["'LIKE'"], "C09.producers-handlers"),
         ("two-huge-float-literals-are-one-constant", "stix2/patterns.py", "text", ['        if not math.isfinite(self.value):', '        if self.value != self.value:'], "C09.sets-and-numbers"),
